@@ -100,4 +100,19 @@ def sched(req):
     return obs
 
 
-JOPS = {"sched": sched}
+def timed(req):
+    """parse + schedule of a text; only the outcome class and the CPU seconds (process time) are returned"""
+    import time
+    t0 = time.process_time()
+    try:
+        project = parser().parse(req["text"], schedule=False)
+        project.schedule()
+        out = "Scheduled"
+    except Exception as e:  # noqa: BLE001
+        name = type(e).__name__
+        mod = type(e).__module__
+        out = "ParseError" if mod.startswith("lark") or name == "ValueError" or name.startswith("Macro") else "Crash:" + name
+    return {"outcome": out, "cpu": round(time.process_time() - t0, 3)}
+
+
+JOPS = {"sched": sched, "timed": timed}
